@@ -10,6 +10,7 @@ import Pyunicorn.Lemmas.RelabelAssort
 import Pyunicorn.Lemmas.RelabelR5
 import Pyunicorn.Lemmas.RelabelRec5
 import Pyunicorn.Lemmas.RelabelW5
+import Pyunicorn.Lemmas.RelabelBetw5
 import Mathlib.Algebra.BigOperators.Group.List.Basic
 import Mathlib.Data.List.Nodup
 /-!
@@ -439,6 +440,55 @@ theorem net_weighted_clustering_relabel (h : IsPerm n idx) (a : Adj) (m w : RMat
   have mo := motifW_relabel h a m i
   ⟨mo.1, mo.2.1, mo.2.2.1, mo.2.2.2, wMax_relabel h w (by omega),
     weightedLocalClustering_relabel h w i hi⟩
+
+/-- **shortest-path / interregional / n.s.i. betweenness, definition level** (round 5): C03's
+definition `nsiBetweennessDef` — weighted numbers of shortest paths `σ_js`, `σ_js(v)` by recursion
+over the last link and the distance levels, pair dependencies `σ_js(v)/σ_js`, sums over the sources
+`s ≠ v` reachable from target `j` and over the target list, division by `w_v` — for *any* pairwise
+distance function carried with the nodes (`Renumbered`; in particular the BFS distances,
+`net_dist_relabel`): with node weights `w[idx]`, source mask `isSrc[idx]` and the target list
+renumbered through the inverse permutation (list positions kept), the value at new node `v` is the
+old value at `idx v`.  Before, this was a theorem only in the expression language with a carried
+path-count matrix σ; here σ is computed by the model. -/
+theorem net_betweenness_def_relabel (h : IsPerm n idx) (a : Adj) (w : Nat → Rat)
+    (d d' : NetBetw.DistFn) (hd : Renumbered n idx d d') (isSrc : List Bool) (targets : List Nat)
+    (ht : ∀ k ∈ targets, k < n) :
+    (∀ j l, j < n → l < n →
+      NetBetw.sigma n (mat a idx) (vec w idx) d' j l = NetBetw.sigma n a w d (idx j) (idx l)) ∧
+    (∀ j v s, j < n → v < n → s < n →
+      NetBetw.pairDep n (mat a idx) (vec w idx) d' j v s
+        = NetBetw.pairDep n a w d (idx j) (idx v) (idx s)) ∧
+    NetBetw.nsiBetweennessDef n (mat a idx) (vec w idx) d' (nodeList n idx false isSrc)
+        (nodes n idx targets)
+      = nodeList n idx 0 (NetBetw.nsiBetweennessDef n a w d isSrc targets) :=
+  ⟨fun j l hj hl => sigma_relabel h a w d d' hd j l hj hl,
+   fun j v s hj hv hs => pairDep_relabel h a w d d' hd j v s hj hv hs,
+   nsiBetweennessDef_relabel h a w d d' hd isSrc targets ht⟩
+
+/-- **partial.**  Full statement: for every undirected simple network, positive node weights,
+source mask and target list, C03's kernel model of `_nsi_betweenness` (`NetBetw.nsiBetweenness`:
+flattened neighbour lists, Brandes-type forward sweep with a queue in discovery order, backward sweep
+over the reversed queue, accumulation over the targets in list order, division by `w`) run on the
+renumbered network with `w[idx]`, `isSrc[idx]` and the renumbered target list returns the renumbered
+array.  Proved here: this follows for every input on which C03's own open obligation holds for both
+numberings — `sweepDiff = contribDef`, i.e. the two sweeps for one target compute that target's
+contribution to the definition (hypothesis of C03's `nsiBetweenness_eq_def_partial`; the assembly
+over targets and the wrapper are proved there for all inputs).  Missing: that obligation itself; the
+sweeps visit the nodes in an order that depends on the numbering, so a direct proof needs the
+order-independence of the queue discipline.  The hypotheses are checked on every generated case by
+the `betw` correspondence (kernel model == definition == implementation on both numberings). -/
+theorem net_betweenness_kernel_relabel_partial (h : IsPerm n idx) (a : Adj) (w : Nat → Rat)
+    (isSrc : List Bool) (targets : List Nat) (ht : ∀ k ∈ targets, k < n)
+    (hk : ∀ j, j ∈ targets → ∀ l, l < n →
+      NetBetw.sweepDiff n a w isSrc j l = NetBetw.contribDef n a w (dist n a) isSrc j l)
+    (hk' : ∀ j, j ∈ nodes n idx targets → ∀ l, l < n →
+      NetBetw.sweepDiff n (mat a idx) (vec w idx) (nodeList n idx false isSrc) j l
+        = NetBetw.contribDef n (mat a idx) (vec w idx) (dist n (mat a idx))
+            (nodeList n idx false isSrc) j l) :
+    NetBetw.nsiBetweenness n (mat a idx) (vec w idx) (nodeList n idx false isSrc)
+        (nodes n idx targets)
+      = nodeList n idx 0 (NetBetw.nsiBetweenness n a w isSrc targets) :=
+  nsiBetweenness_relabel_of_sweeps h a w isSrc targets ht hk hk'
 
 /-! ## C11 model: cross / internal measures, node lists renumbered with the network -/
 open Pyunicorn.Cross
@@ -895,6 +945,14 @@ example : wMax 5 exW5 = 5 ∧ wMax 5 (mat exW5 exPerm5) = 5 ∧ exW5 0 0 = 0 ∧
     weightedLocalClustering 5 exW5 1 = some (4 / 15) ∧
     weightedLocalClustering 5 (mat exW5 exPerm5) 4 = some (4 / 15) ∧
     weightedLocalClustering 5 exW5 3 = none := by decide +kernel
+/-- betweenness on the path 0 — 1 — 2 (+ isolated 3): the middle node lies on the two shortest
+paths between the ends; after renumbering it is node 3 -/
+example : NetBetw.nsiBetweennessDef 4 exAdj (fun _ => 1) (dist 4 exAdj) [true, true, true, true]
+      [0, 1, 2, 3] = [0, 2, 0, 0] ∧
+    NetBetw.nsiBetweennessDef 4 (mat exAdj exPerm) (fun _ => 1) (dist 4 (mat exAdj exPerm))
+      (nodeList 4 exPerm false [true, true, true, true]) (nodes 4 exPerm [0, 1, 2, 3]) = [0, 0, 0, 2] ∧
+    NetBetw.nsiBetweenness 4 exAdj (fun _ => 1) [true, true, true, true] [0, 1, 2, 3] = [0, 2, 0, 0] := by
+  decide +kernel
 example : nodes 4 exPerm [0, 3] = [1, 2] ∧ (nodes 4 exPerm [0, 3]).map exPerm = [0, 3] := by
   decide +kernel
 /-- links of the path 0 — 1 — 2 listed in two different orders / orientations -/
